@@ -579,7 +579,7 @@ def _fix_retry(scn):
                 del op["retry_of"]
 
 
-RUNS = {"quick": 1500, "thorough": 40000}
+RUNS = {"quick": 1500, "thorough": 34000}
 RULE = ("one evaluation = one seeded world and history in one of three modes: faults (a share of "
         "updates get a fault of a seeded kind at a seeded instant found by dry-running the update "
         "on a never-faulted twin, up to two updates per run are swept: the fault is injected at "
